@@ -153,3 +153,35 @@ Theorem C06_hypersingular_regular_symmetric :
   entry (o0 RO) (oadd RO) J I (helm_hyp_regular RO g g s s quad kern identical k E E).
 Proof. exact @hyp_regular_symmetric. Qed.
 Print Assumptions C06_hypersingular_regular_symmetric.
+
+(* ---- symmetry of the singular part (deepening) ---- *)
+From Coq Require Import Permutation QArith.
+From BV Require Import Quad.Poly Quad.Rules AssemblyB.SingSym.
+From BVgen Require Import DuffyRegions.
+
+(* model side: if the rule of the pair (f,e) is the test/trial swap of the rule of (e,f) as a multiset (for a
+   coincident pair: a swap-closed rule), the singular values are transposes of each other for a symmetric kernel *)
+Theorem C06_singular_part_swap :
+  forall (A : Type) (RO : ops A) (Hring : IsRing RO) (g : geom) (st ss : space) (kern : kernel)
+         (mik ik k : A) (e f : nat) (pts pts' : list spt) (i j : nat),
+  (forall x y nx ny, kern x y nx ny = kern y x ny nx) ->
+  Permutation pts' (map swap_pt pts) ->
+  scalar_sing_val RO g st ss kern e f pts i j = scalar_sing_val RO g ss st kern f e pts' j i /\
+  ghyp_sing_val RO g st ss kern k e f pts i j = ghyp_sing_val RO g ss st kern k f e pts' j i /\
+  efield_sing_val RO g kern mik ik e f pts i j = efield_sing_val RO g kern mik ik f e pts' j i.
+Proof. exact singular_part_swap. Qed.
+Print Assumptions C06_singular_part_swap.
+
+(* rule side (regions regenerated from duffy_galerkin.py): for EVERY 1-D rule the coincident and the
+   vertex-adjacent Duffy rules are swap-closed multisets of (test point, trial point, weight); the edge-adjacent
+   region list is not made of swapped pairs (5 regions) - the source of the residual asymmetry of E and M *)
+Theorem C06_duffy_coincident_vertex_swap_closed :
+  forall xw : list (Q * Q),
+  Permutation (map qpoint_swap (duffy_rule duffy_coincident xw)) (duffy_rule duffy_coincident xw) /\
+  Permutation (map qpoint_swap (duffy_rule duffy_vertex xw)) (duffy_rule duffy_vertex xw).
+Proof. exact duffy_coincident_vertex_swap_closed. Qed.
+Print Assumptions C06_duffy_coincident_vertex_swap_closed.
+
+Theorem C06_duffy_edge_not_paired : paired duffy_edge = false.
+Proof. exact edge_not_paired. Qed.
+Print Assumptions C06_duffy_edge_not_paired.
